@@ -23,7 +23,7 @@ static std::string short_sig(const std::string &scen, const std::string &where, 
 // classify a transcript line position into a coarse, stable name for signatures (first / last / middle would be unstable across sizes; use index for short transcripts, "line" otherwise)
 static std::string pos_name(size_t pos, size_t total) { if (total <= 8) return "line" + std::to_string(pos); return "line"; }
 
-static void mutate_transcript_case(Ctx &ctx, size_t entry) {
+static void mutate_transcript_case(Ctx &ctx, size_t entry, bool range_sweep = false) {
   const Entry &e = scenario_registry()[entry]; ScenarioP s = e.make(ctx);
   ctx.desc << s->desc.str(); ctx.label(e.name);
   size_t judged = 0, unjudged = 0, refused_by_exception = 0;
@@ -48,9 +48,14 @@ static void mutate_transcript_case(Ctx &ctx, size_t entry) {
     RunResult base = run_scenario(ctx, *s);
     if (!base.accepted) { ctx.label("baseline-rejected(C03)"); ctx.discard(); return; }
     size_t total = base.p_lines.size(); if (!total) { ctx.discard(); return; }
-    size_t tries = ctx.thorough ? 14 : 7;
+    // sampled (line, mutation) pairs; in the range sweep EVERY prover line (64 sampled lines of longer transcripts) gets the three
+    // out-of-range representatives v+p, v-p, v+q ("refused ... instead of being silently reduced")
+    static const char *SWEEP[3] = {"v+p", "v-p", "v+q"}; std::vector<size_t> sweep_pos;
+    if (range_sweep) { if (total <= 64) for (size_t i = 0; i < total; i++) sweep_pos.push_back(i); else for (int k = 0; k < 64; k++) sweep_pos.push_back(ctx.c.index(total)); }
+    size_t tries = range_sweep ? sweep_pos.size() * 3 : ctx.thorough ? 14 : 7;
     for (size_t k = 0; k < tries; k++) {
-      size_t pos = ctx.c.index(total); const Mutation &m = catalogue()[ctx.c.index(catalogue().size())];
+      size_t mi = 0; if (range_sweep) { for (size_t z = 0; z < catalogue().size(); z++) if (catalogue()[z].name == SWEEP[k % 3]) mi = z; } else mi = (size_t)-1;
+      size_t pos = range_sweep ? sweep_pos[k / 3] : ctx.c.index(total); const Mutation &m = catalogue()[range_sweep ? mi : ctx.c.index(catalogue().size())];
       if (m.name == "swap-with-next") continue; // a relay cannot swap with a line not yet sent
       Expect ex = MUST_REFUSE; Z v, mv; bool applied = false;
       auto hook = [&](size_t n, std::string &line) -> int {
@@ -70,6 +75,14 @@ static void mutate_transcript_case(Ctx &ctx, size_t entry) {
   if (judged) ctx.nontrivial(s->desc.str() + "#" + std::to_string(judged));
 }
 VF_ENUM(transcript_values_bound, 27 * 8, 27 * 150) { size_t i = ctx.c.raw(); mutate_transcript_case(ctx, i % scenario_registry().size()); }
+// (a') interactive proofs: every prover line x {v+p, v-p, v+q}
+VF_ENUM(interactive_out_of_range_values_refused, 13 * 3, 13 * 40) {
+  static const char *IA[13] = {"key_interactive", "key_interactive_publiccoin", "stack_cutchoose_permutation", "stack_cutchoose_rotation", "stack_groth_interactive", "stack_hoogh_interactive", "skc_interactive", "skc_publiccoin",
+    "flip_twoparty", "tmcg_maskcard_rabin", "tmcg_cardsecret_rabin", "stack_cutchoose_rabin_permutation", "stack_cutchoose_rabin_rotation"};
+  size_t i = ctx.c.raw() % 13; const std::vector<Entry> &R = scenario_registry();
+  for (size_t z = 0; z < R.size(); z++) if (std::string(R[z].name) == IA[i]) { mutate_transcript_case(ctx, z, true); return; }
+  ctx.discard();
+}
 
 // (b) public inputs
 static bool modulus_handle(const std::string &n) { return n == "group.p" || n == "group.q"; }
